@@ -51,17 +51,15 @@ def c_empty_cred_id(s, r): s.cred_id = b""
 def c_alg_not_allowed(s, r):
     alg = authsim.KINDS[s.kind][2]
     s.algs = [a for a in (-7, -8, -36, -257, -258, -259, -37, -38, -39) if a != alg][: r.choice([1, 3, 8])]
-def c_id_mismatch(s, r):
-    good = b64u(s.cred_id)
-    if not good:
-        s.id_text = r.choice(["=", "A", ".", "\n"])
-        return
-    s.id_text = r.choice([good + "=", good + "A", good[:-1] + ("B" if good[-1] != "B" else "C"), good[:3] + "." + good[3:], good + "\n"])
+def c_id_mismatch(s, r): authcat.f_id_mismatch(s, r)
+def c_id_fault(which): return authcat.id_fault(which)
 def c_cred_type(s, r): s.typ = r.choice(["public-key ", "Public-Key", ""])
 def c_unknown_fmt(s, r): s.k["fmt_override"] = r.choice(["bogus", "Packed", "none ", "android_key", ""])
 def c_bs_without_be(s, r): s.flags = (s.flags | 0x10) & ~0x08
 
 CEREMONY = {
+    "id-not-b64-rawid:padded-1": c_id_fault("padded-1"), "id-not-b64-rawid:last-char-spare-bits": c_id_fault("last-char-spare-bits"), "id-not-b64-rawid:newline-appended": c_id_fault("newline-appended"),
+    "id-not-b64-rawid:standard-alphabet": c_id_fault("standard-alphabet"), "id-not-b64-rawid:char-appended": c_id_fault("char-appended"), "id-not-b64-rawid:empty": c_id_fault("empty"),
     "origin-alias-spelling": c_origin_alias, "challenge-base64url-alias": c_challenge_b64_alias, "allowed-algorithms-empty": c_algs_empty,
     "cd-type": c_type, "challenge-other": c_challenge_other, "challenge-trunc": c_challenge_trunc, "origin-other": c_origin_other,
     "origin-substring": c_origin_substring, "origin-list-absent": c_origin_list_absent, "token-binding-status": c_token_binding,
